@@ -17,6 +17,7 @@ struct MVec
     size_t residual_objects = 0;
     bool default_constructed = false;
     bool ever_held = false;     // held an element at some point since construction / last assignment
+    bool grown_by_reserve = false;  // capacity / budget come from a growing reserve(): what it promised is C10's business
     bool fresh_block = true;    // storage obtained for exactly (cap, budget): construct, growing reserve, copy construction
     std::vector<MElem> e;
     size_t cap = 0;
@@ -153,7 +154,7 @@ struct VecMon
         if (db != 0 && blk)
         {
             if (blk->arena != m.arena)
-                violation("C08", "block_of_foreign_arena", fmt("%s: storage block belongs to arena %d, get_allocator() is arena %d", who, blk->arena, m.arena), op, pre);
+                violation("C08,C07", "block_of_foreign_arena", fmt("%s: storage block belongs to arena %d, get_allocator() is arena %d", who, blk->arena, m.arena), op, pre);
             if (mc > blk->bytes)
                 violation("C02", "memory_consumption_exceeds_block", fmt("%s: memory_consumption() == %zu but the allocator handed out %zu bytes", who, mc, blk->bytes), op, pre);
         }
